@@ -28,6 +28,9 @@ def run(F, rep):
     rep.run(lemmas.exts_lemmas, F, rep)
     # reads handed over as reverse-complemented views: the view's k-mers are the reverse complements of the substring's k-mers
     rep.run(dt_seq.slice_view_tables, F, rep, "C06.7")
+    # ... or as owned reverse complements made by the library's own Mer::rc of the read containers
+    rep.run(lemmas.dnastring_lemmas, F, rep, which={"rc"})
+    rep.run(lemmas.lmer_lemmas, F, rep, which={"rc"})
     # strand-symmetric sharding: the score is symmetric in a p-mer and its reverse complement and is compared in full
     rep.run(dt_msp.score_closure_tables, F, rep, "C06.8")
     rep.run(dt_msp.minpos_order_tables, F, rep, "C06.8")
